@@ -427,7 +427,20 @@ Section Kind.
         constructor; try (right; exact Hlba); try (intros ? C; rewrite ?Eadd, ?Erem, ?Epro, ?Edem in C; try discriminate C; inversion C; subst; auto).
         * split; [exact G1|apply cur_free_get; exact Hf].
         * right. rewrite Edem, Erem. cbn [ostore]. auto.
-        * unfold up, down. rewrite Eadd, Erem, Epro, Edem. cbn. rewrite (NJ_new_voter x Rx), Hl. destruct (is_learner a); cbn; lia.
+        * unfold up, down. rewrite Eadd, Erem, Epro, Edem. cbn. rewrite (NJ_new_voter x Rx).
+          destruct Hl as [Hl|Hsingle]; [rewrite Hl; destruct (is_learner a); cbn; lia|].
+          destruct (is_learner a) eqn:Ela, (is_learner x) eqn:Elx; cbn; try lia.
+          (* a learner replaces a voter, and nothing else is pending: the target has one voter less than now *)
+          unfold single_replace in Hsingle. apply andb_true_iff in Hsingle as [Hsingle S4]. apply andb_true_iff in Hsingle as [Hsingle S3].
+          apply andb_true_iff in Hsingle as [S1 S2]. apply Nat.eqb_eq in S1, S3.
+          assert (Hp0 : b_promote b = []) by (destruct (b_promote b); [reflexivity|discriminate S3]).
+          assert (Hall : forall a', In a' (b_add b) -> is_learner a' = true).
+          { intros a' Ha'. destruct (b_add b) as [|a0 [|a1 l]]; try discriminate S1. destruct Ha as [<-|[]]. destruct Ha' as [<-|[]]. exact Ela. }
+          destruct (remove_facts b x P Hx) as (_ & Hcx & _).
+          assert (Hxv : prole x = Voter).
+          { destruct Rx as [R|R]; [exact R|]. apply is_learner_role in R. congruence. }
+          assert (Hpend : pm_get (b_demote b) (pstore x) <> None \/ pm_get (b_remove b) (pstore x) <> None) by (right; rewrite G2; discriminate).
+          pose proof (voters_bound b r (pstore x) x S P Hp0 Hall Hcx Hxv Hpend). lia.
       + (* add learner + promote + remove voter *)
         destruct (add_facts b a P Ha) as (G1 & _ & _). destruct (remove_facts b x P Hx) as (G2 & _ & Rx).
         destruct (promote_facts b pr P Hpr) as (G3 & _).
